@@ -2,7 +2,7 @@
 Oracle: RefAST big-step reading; monitors: LogRecorder, WatchedGlobals history, parse contract."""
 import random
 
-from .. import exec_prog, gen_prog, refval
+from .. import exec_prog, gen_prog, layout, refval
 from ..refast import pp
 
 PATTERNS = [[1, 0, 1, 1, 0, 0, 1, 0], [0, 1, 0, 0, 1, 1, 0, 1], [1, 1, 1, 1], [0, 0, 0, 0]]
@@ -30,7 +30,7 @@ def meta(tier):
         'rule': (f'(a) every nesting chain of the 26 construct variants (8 if-shapes x child position, 3 loop kinds x 6 '
                  f'break/continue options) to depth {depth}, at global scope and inside a function, each under 2 condition '
                  'vectors drawn by a stateful host condition source; (b) seeded grammar-generated programs (depth<=5, 0-3 '
-                 'functions, all seven constructs, probes for evaluate-once/laziness, initial globals from all nine value '
+                 'functions whose parameters may shadow globals and are called with too few / too many arguments, expression-only statements, identifiers that start with a keyword, respelled layouts, all seven constructs, probes for evaluate-once/laziness, initial globals from all nine value '
                  'types). A case is non-trivial if the real run produced >=1 log line and the program contains a loop or '
                  'branch; distinct = distinct (program text, initial globals, condition vector).'),
         'exhaustive': False,
@@ -59,9 +59,11 @@ def _drain(con, acc, prop, case):
             acc.count('cross_' + p + '_' + kind)
 
 
-def run_case(prog, init, pattern, acc, con, lib, fuel=4000, limit=60000):
+def run_case(prog, init, pattern, acc, con, lib, fuel=4000, limit=60000, respell=None):
     text = '\n'.join(pp(prog))
-    case = {'prog': prog, 'init': refval.enc(init), 'pattern': pattern}
+    if respell is not None:
+        text = layout.respell(text, random.Random(respell), 0.4)
+    case = {'prog': prog, 'init': refval.enc(init), 'pattern': pattern, 'respell': respell}
     verdict, real, _ = exec_prog.compare_case(prog, init, pattern, acc, 'C01', lib, text=text, case=case, fuel=fuel, limit=limit)
     if verdict == 'violation' and acc.nviol <= 3:
         # shrink the violating program (greedy statement deletion while the verdict stays "violation") and report the small one too
@@ -129,11 +131,19 @@ def run_shard(spec, acc):
             rnd = random.Random(base + i)
             gen = gen_prog.ProgGen(rnd, maxdepth=rnd.choice([2, 3, 4, 5]))
             gen.late_defs = True
+            gen.expr_stmts = True
+            gen.shadow_params = True
             prog = gen.program()
             allow_wc = rnd.random() < 0.12
             prog = gen_prog.fix_while_continue(prog, allow_wc)
             init = gen_prog.init_values(rnd, gen.vars, p_num=0.6)
-            run_case(prog, init, None, acc, con, lib)
+            if rnd.random() < 0.25:
+                # identifiers that merely START with a keyword (returnValue, iffy, fori, breaker ...) are ordinary names
+                mapping = gen_prog.keyword_renaming(rnd, prog, gen.vars)
+                prog = gen_prog.rename(prog, mapping)
+                init = {mapping.get(k, k): v for k, v in init.items()}
+                acc.count('keyword_prefixed_identifier_programs')
+            run_case(prog, init, None, acc, con, lib, respell=(base + i) if rnd.random() < 0.2 else None)
             for f in gen.features:
                 acc.cover('constructs', f)
     acc.count('contract_evals_parse', con.evals.get('parse_script_post', 0))
@@ -149,4 +159,4 @@ def replay(spec, acc):
     if 'prog' not in case:
         acc.note_inconclusive('replay payload has no program (finding-level entry)')
         return
-    run_case(case['prog'], refval.dec(case['init']) if case.get('init') else {}, case.get('pattern'), acc, con, lib)
+    run_case(case['prog'], refval.dec(case['init']) if case.get('init') else {}, case.get('pattern'), acc, con, lib, respell=case.get('respell'))
